@@ -516,8 +516,8 @@ macro_rules! join_comp {
 
 // the rows that do not compile when moved up are exactly the missing impls of specs
 join_comp!(plain: CV CD CT CH CB CZ);
-join_comp!(shared_get_mut_only: FV FD FT FH FB);
-join_comp!(lend_only: GV GD GT GH GB);
+join_comp!(shared_get_mut_only: FV FD FT FH FB FZ);
+join_comp!(lend_only: GV GD GT GH GB GZ);
 
 fn caps<T: JoinComp>() -> (bool, bool) {
     (T::J_MUT, T::P_MUT)
@@ -558,7 +558,7 @@ fn take1(p: &[i64], pos: &mut usize) -> Option<i64> {
 }
 
 fn sid_ok(s: i64) -> Option<i64> {
-    if (0..16).contains(&s) {
+    if (0..18).contains(&s) {
         Some(s)
     } else {
         None
@@ -643,7 +643,7 @@ struct Need {
 
 #[derive(Default)]
 struct Plan {
-    st: [Need; 16],
+    st: [Need; 18],
     cs_shared: [u32; 4],
     cs_excl: [u32; 4],
     nbits: usize,
@@ -817,13 +817,13 @@ macro_rules! def_tables {
         struct Srcs<'h, 'w> { $($f: Src<'h, 'w, $T>,)* }
         struct Refs<'h, 'w> { $($f: Ref<'h, Src<'h, 'w, $T>>,)* }
 
-        fn fetch_all<'w>(world: &'w World, needs: &[Need; 16]) -> Holders<'w> {
+        fn fetch_all<'w>(world: &'w World, needs: &[Need; 18]) -> Holders<'w> {
             Holders { $($f: fetch::<$T>(world, needs[$n]),)* }
         }
-        fn mk_srcs<'h, 'w>(h: &'h mut Holders<'w>, needs: &[Need; 16]) -> Srcs<'h, 'w> {
+        fn mk_srcs<'h, 'w>(h: &'h mut Holders<'w>, needs: &[Need; 18]) -> Srcs<'h, 'w> {
             Srcs { $($f: mk_src(&mut h.$f, needs[$n]),)* }
         }
-        fn mk_refs<'h, 'w>(s: &'h mut Srcs<'h, 'w>, needs: &[Need; 16]) -> Refs<'h, 'w> {
+        fn mk_refs<'h, 'w>(s: &'h mut Srcs<'h, 'w>, needs: &[Need; 18]) -> Refs<'h, 'w> {
             Refs { $($f: mk_ref(&mut s.$f, needs[$n]),)* }
         }
     };
@@ -833,6 +833,7 @@ def_tables! {
     (0, CV, f0) (1, CD, f1) (2, CT, f2) (3, CH, f3) (4, CB, f4) (5, CZ, f5)
     (6, FV, f6) (7, FD, f7) (8, FT, f8) (9, FH, f9) (10, FB, f10)
     (11, GV, f11) (12, GD, f12) (13, GT, f13) (14, GH, f14) (15, GB, f15)
+    (16, FZ, f16) (17, GZ, f17)
 }
 
 /// with_ref!(refs, sid, |r| expr): evaluate `expr` with `r` the (typed) table entry of the storage
@@ -855,6 +856,8 @@ macro_rules! with_ref {
             13 => { let $r = &mut $refs.f13; $body }
             14 => { let $r = &mut $refs.f14; $body }
             15 => { let $r = &mut $refs.f15; $body }
+            16 => { let $r = &mut $refs.f16; $body }
+            17 => { let $r = &mut $refs.f17; $body }
             _ => panic!("bad storage id"),
         }
     };
